@@ -67,6 +67,18 @@ theorem C09_roundtrip_addr (H : Bytes → Bytes) (hH : ∀ x, 4 ≤ (H x).length
       simp [addrFlag, hb]
   · rfl
 
+/-- address text is injective per network: two (hash, type) pairs with the same address string under
+    one network are the same pair — no two payment destinations share an address -/
+theorem C09_addr_encode_injective (H : Bytes → Bytes) (hH : ∀ x, 4 ≤ (H x).length) (h1 h2 : Bytes)
+    (hl1 : h1.length = 20) (hl2 : h2.length = 20) (t1 t2 : AddrType) (n : Net)
+    (he : addrEncode H h1 t1 n = addrEncode H h2 t2 n) : h1 = h2 ∧ t1 = t2 := by
+  have a := C09_roundtrip_addr H hH h1 hl1 t1 n
+  have b := C09_roundtrip_addr H hH h2 hl2 t2 n
+  rw [he, b] at a
+  injection a with a
+  injection a with a1 a2
+  exact ⟨a1.symm, a2.symm⟩
+
 theorem wif_length (H : Bytes → Bytes) (hH : ∀ x, 4 ≤ (H x).length) (key : Bytes)
     (hk : key.length = 32) (pfx : UInt8) (hp : pfx = MAIN_PRIVATE_KEY ∨ pfx = TEST_PRIVATE_KEY) :
     (bytesToWif H key pfx).length = 52 := by
